@@ -36,7 +36,8 @@ MIN_NONTRIVIAL = {'quick': 2500, 'thorough': 30000}
 REQUIRED = ('twin_pairs', 'automated_steps_replayed_with_defaults',
             'decision_points_compared', 'terminal_pairs_compared',
             'subsets_seen', 'client_call_sequences_compared',
-            'stud_fallback_twins')
+            'stud_fallback_twins',
+            'observer_query_points')
 
 CUSTOMS = ('kuhn', 'draw5', 'stud5', 'greek', 'courchevel', 'holdem8',
            'plo8', 'badugi1', 'razzdraw', 'random')
@@ -155,7 +156,7 @@ class TwinMonitor(Monitor):
 
 
 def make_monitors():
-    return [TwinMonitor()]
+    return [driver.Observer(), TwinMonitor()]
 
 
 SUBSET_CURSOR = [0]
